@@ -80,3 +80,38 @@ PROPS["C05"] = {
                                  "the consumers other than Valid (RawMessage encode/decode, unknown-field skip, array surplus, MarshalJSON output, Decoder framing) call the proved recogniser parseValue; their own glue is covered by correspondence with encoding/json only"],
     "assumptions": ["inputs shorter than 2^62 bytes"],
 }
+
+PROPS["C16"] = {
+    "harness": "c16",
+    "models": ["Proto/Model.v", "Generated/ProtoGen.v"],
+    "rule": "hand-picked shapes + seeded random struct types and values (as C03) plus a top-level RawMessage; for each value EVERY destination length 0..Size+3 with 16 guard bytes after the destination; "
+            "observable: ok n + bytes written / short / other error / PANIC / GUARD-OVERWRITTEN; oracle: ok Size Marshal(v) when len>=Size else short",
+    "nontrivial": nontrivial_default,
+    "trusted_base": PROTO_TB,
+    "assumptions": PROPS["C03"]["assumptions"],
+    "claim": {
+        "text": "Theorems (Properties/C16.v) on the proto model, for every supported type, well-formed value and flag word: encode writes exactly size_of bytes into any buffer of at least that length "
+                "(the bytes are independent of the buffer, the rest of the buffer is unchanged) and returns io.ErrShortBuffer without panic and without growing the buffer for every shorter length; "
+                "hence MarshalTo/Marshal/Size agree. Every slice expression of the Go encoder is bound-checked in the model (Panic), so the theorem includes panic-freedom.",
+        "note": "Trusted: Coq kernel, translator (wire primitives), the hand-written model of the reflection-driven codecs tied by correspondence on random types x every buffer length, extraction+driver, harness. Writes beyond len(b) inside cap(b) are excluded by construction of the model (windows are exact) and observed by guard bytes.",
+    },
+}
+PROPS["C07"] = {
+    "harness": "c07",
+    "models": ["Proto/Model.v", "Generated/ProtoGen.v"],
+    "rule": "valid encodings of random types/values, EVERY prefix, 12 mutations each (random byte, high-bit flip, insertion, boundary values), unknown fields of every wire type inserted at every top-level field boundary, random bytes; "
+            "observable: decoded value (canonical) / err / PANIC; compared with the Coq model's decode on the same bytes",
+    "nontrivial": nontrivial_default,
+    "trusted_base": PROTO_TB,
+    "assumptions": ["universe of target types as in C03; inputs shorter than 2^31 bytes"],
+    "claim": {
+        "text": "Theorems (Properties/C07.v): for every supported target type and EVERY byte string the model's decode/Unmarshal returns a value or an error - never Panic (all Go slice bounds are checked in the model) and within fuel linear in the input - "
+                "with 0 <= consumed <= len. Unknown-field skipping and Scan/Parse agreement are covered by the correspondence (model vs implementation on inserted unknown fields), not yet by a theorem; allocation is not modelled.",
+        "note": "Trusted as C16. Recursive message types (unbounded Go stack) are outside the finite-descriptor universe; memory allocation is not modelled.",
+    },
+}
+PROPS["C03"]["claim"] = {
+    "text": "Theorems (Properties/C03.v): Marshal never fails and returns exactly Size(v) bytes for every value of the universe; encode/size agreement for every codec and flag word. Round trip Unmarshal(Marshal(v)) = v (up to nil-vs-empty) "
+            "is checked by correspondence against the model and the property oracle on every run and is being proved (Proto/RoundTrip.v); one recorded finding (pointer to a message with empty encoding decodes as nil).",
+    "note": "Trusted as C16; map iteration order is the list order of the model (Go's random order is canonicalised by sorting in the harness).",
+}
